@@ -338,6 +338,14 @@ def _ctor(name):
             return out
         if any(has_sym(v) for v in a) or any(has_sym(v) for v in k.values()):
             return _sym_ctor(name, a, k)
+        if dt in (vc_float, vc_complex):
+            k = dict(k, dtype=object)
+            if len(a) >= 2 and name in ('zeros', 'ones', 'empty'):
+                a = a[:1] + a[2:]
+        elif dt is vc_int:
+            k = dict(k, dtype=builtins.int)
+            if len(a) >= 2 and name in ('zeros', 'ones', 'empty'):
+                a = a[:1] + a[2:]
         return _objectify(real_f(*a, **k)) if dt in (None, float, complex, 'float', 'complex', object) else real_f(*a, **k)
     f.__name__ = name
     return f
@@ -535,17 +543,31 @@ def vc_min(*a, **k):
     return _fold(vals, vc_min2)
 
 
-def vc_float(x=0.0):
+class _ShadowMeta(type):
+    """builtin-type shadows stay usable as types (isinstance, dtype=...) while the
+    constructor call is symbolic-aware"""
+
+    def __instancecheck__(cls, inst):
+        return isinstance(inst, cls.__mro__[1])
+
+    def __subclasscheck__(cls, sub):
+        return issubclass(sub, cls.__mro__[1])
+
+    def __call__(cls, *a, **k):
+        return cls._impl(*a, **k)
+
+
+def _float_impl(x=0.0):
     if is_sym(x):
         return x
     if isinstance(x, _np.ndarray) and x.dtype == object and x.size == 1:
-        return vc_float(x.item())
+        return _float_impl(x.item())
     if _is_xr(x) and x.size == 1 and has_sym(x):
         return x.values.item()
     return builtins.float(x)
 
 
-def vc_int(x=0, *a):
+def _int_impl(x=0, *a):
     if isinstance(x, SNum):
         if x.is_int:
             return x
@@ -558,7 +580,29 @@ def vc_int(x=0, *a):
         return SNum(z3.If(x.e >= 0, fl, cl))
     if isinstance(x, SBool):
         return SNum(z3.If(x.e, z3.IntVal(1), z3.IntVal(0)))
+    if isinstance(x, _np.ndarray) and x.dtype == object and x.size == 1:
+        return _int_impl(x.item())
     return builtins.int(x, *a)
+
+
+def _complex_impl(*a):
+    if any(is_sym(v) for v in a):
+        if len(a) == 1:
+            return SCplx.of(a[0])
+        return SCplx.of(a[0]) + SCplx.of(a[1]) * 1j
+    return builtins.complex(*a)
+
+
+class vc_float(builtins.float, metaclass=_ShadowMeta):
+    _impl = staticmethod(_float_impl)
+
+
+class vc_int(builtins.int, metaclass=_ShadowMeta):
+    _impl = staticmethod(_int_impl)
+
+
+class vc_complex(builtins.complex, metaclass=_ShadowMeta):
+    _impl = staticmethod(_complex_impl)
 
 
 def vc_round(x, n=None):
@@ -571,13 +615,24 @@ def vc_abs(x):
     return builtins.abs(x)
 
 
-def vc_complex(*a):
-    if any(is_sym(v) for v in a):
-        if len(a) == 1:
-            return SCplx.of(a[0])
-        return SCplx.of(a[0]) + SCplx.of(a[1]) * 1j
-    return builtins.complex(*a)
+import warnings as _warnings
 
+
+class _WarnShim(types.ModuleType):
+    """warnings.warn is an observable event of the path (so 'warns iff ...' clauses can be stated)"""
+
+    def __init__(self):
+        super().__init__('warnings')
+
+    def __getattr__(self, name):
+        return getattr(_warnings, name)
+
+    @staticmethod
+    def warn(message, *a, **k):
+        sym.cur().event('warn', message)
+
+
+WARN = _WarnShim()
 
 BUILTIN_SHADOWS = {'max': vc_max, 'min': vc_min, 'float': vc_float, 'int': vc_int,
                    'round': vc_round, 'complex': vc_complex}
@@ -605,6 +660,8 @@ def patched(extra=()):
                 new = missing
                 if val is _np:
                     new = NP
+                elif val is _warnings:
+                    new = WARN
                 elif val is _np.linalg:
                     new = NP.linalg
                 elif val is _np.random:
